@@ -465,7 +465,7 @@ func symConv(fr *frame, dst, src types.Type, x *sym) value {
 			pre = "(_ to_fp 8 24)"
 		}
 		if !isSigned(src) {
-			pre = "(_ to_fp_unsigned" + pre[7:]
+			pre = "(_ to_fp_unsigned" + pre[8:]
 		}
 		return &sym{ts.mk(pre+" RNE", so, x.t)}
 	case bs.Info()&types.IsFloat != 0 && bd.Info()&types.IsInteger != 0:
